@@ -3,6 +3,7 @@ mod c09;
 mod c14;
 mod c15;
 mod mlpc;
+mod ipax;
 mod c13;
 mod c16;
 mod kzg;
@@ -104,6 +105,7 @@ fn main() {
                     "c14" => c14::run(&c, &mut out),
                     "c15" => c15::run(&c, &mut out),
                     "mlpc" => mlpc::run(&c, &mut out),
+                    "ipax" => ipax::run(&c, &mut out),
                     "c08" => schemes::run_c08(&c, &mut out),
                     k => panic!("unknown case kind {}", k),
                 }));
